@@ -1,5 +1,6 @@
 /-
-C26 — model of internal/address/address.go (as of the fixed tree, commit 59b56d7).
+C26 — model of internal/address/address.go (as of the fixed tree: 59b56d7 last-colon split in Parse,
+2166441 Validate rejects hosts containing '/' or '@').
 
 Strings are `List Char` (`Str`).  Go strings are byte strings; every delimiter the code looks
 for is ASCII and UTF-8 is self-synchronising, so cutting a valid UTF-8 string at an ASCII
@@ -10,7 +11,8 @@ Modelled functions (same order of tests as the Go code):
   buildString / String, HostPort, FormatHostPort, HostPortOf, Parse (with strconvx.ParseInt32
   = strconv.ParseInt(s,10,64) + the int32 range test), Validate (pattern validator on system and
   TrimSpace(name), empty-string validators, the 255-byte limit, the TCP validator
-  net.SplitHostPort(TrimSpace(net.JoinHostPort(host, Itoa(port)))), the parent checks).
+  net.SplitHostPort(TrimSpace(net.JoinHostPort(host, Itoa(port)))), the host delimiter assertion
+  !strings.ContainsAny(host, "/@"), the parent checks).
 An address is a node plus the chain of its ancestors (nearest first): `parent` pointers in Go
 form a chain, and String/Parse/Validate only ever walk that chain.
 
@@ -259,7 +261,7 @@ def tcpOK (host : Str) (port : Int) : Bool :=
 
 /-- the checks of Validate on the address itself (everything before the parent block) -/
 def selfOK (n : Node) : Bool :=
-  tcpOK n.host n.port && !n.system.isEmpty && !n.name.isEmpty && decide (byteLen n.name ≤ 255) &&
+  tcpOK n.host n.port && (!n.host.contains '/' && !n.host.contains '@') && !n.system.isEmpty && !n.name.isEmpty && decide (byteLen n.name ≤ 255) &&
   matchesPattern n.system && matchesPattern (trimSpace n.name)
 
 def lowerAscii (c : Char) : Char := if 65 ≤ c.toNat && c.toNat ≤ 90 then Char.ofNat (c.toNat + 32) else c
